@@ -26,6 +26,18 @@ fn gen(rng: &mut Rng, case: u64) -> Case {
             _ => Ev::Some(t, constant_input.unwrap_or_else(|| rng.moderate(1e4))),
         });
     }
+    if case % 16 == 7 {
+        // long silence: 1..3 present samples, 32..44 absent events in a row, then present samples again, everything well
+        // inside the window (housekeeping keyed on "nothing arrived for N updates" only shows here)
+        let window = rng.step_ns(1_000_000, 36_000_000_000_000);
+        let step = (window / 100).max(1);
+        let mut t = rng.range_i64(-1_000_000_000_000, 1_000_000_000_000);
+        let mut h = Vec::new();
+        for _ in 0..1 + rng.usize(3) { t += step; h.push(Ev::Some(t, rng.moderate(1e4))); }
+        for _ in 0..32 + rng.usize(13) { t += step; h.push(Ev::None); }
+        while h.len() < 60 { t += step; h.push(if rng.chance(0.85) { Ev::Some(t, rng.moderate(1e4)) } else { Ev::None }); }
+        return Case { window, smoothing: rng.unit() as f32, h };
+    }
     if case % 11 == 3 {
         // 40..64 present samples at a tiny constant step, all inside the window (a cap on the stored history only
         // shows at the maximum length), optionally followed by a gap longer than the window
